@@ -578,6 +578,33 @@ impl Gen {
     }
 }
 
+/// The batch of a property is a mixture: mostly its own focus, partly the neighbouring ones, so that
+/// e.g. the convergence check also sees message splitting, ack games and crashes.
+pub fn mixed_focus(seed: u64, prop: &str) -> Focus {
+    let own = focus_of(prop);
+    let mut r = Rng::new(seed ^ 0x5EED_F0C5);
+    let table: &[(Focus, u32)] = match prop {
+        "C01" | "C02" | "C03" => &[
+            (Focus::Replication, 45),
+            (Focus::Packing, 15),
+            (Focus::Acks, 10),
+            (Focus::Visibility, 10),
+            (Focus::Crash, 10),
+            (Focus::Ticks, 5),
+            (Focus::PreSpawn, 5),
+        ],
+        "C09" => &[(Focus::Crash, 75), (Focus::Events, 10), (Focus::Packing, 5), (Focus::Acks, 5), (Focus::Auth, 5)],
+        "C10" => &[(Focus::Packing, 80), (Focus::Ticks, 10), (Focus::Replication, 10)],
+        "C11" => &[(Focus::Acks, 70), (Focus::Packing, 20), (Focus::Replication, 10)],
+        "C04" | "C05" => &[(Focus::Events, 75), (Focus::Crash, 10), (Focus::Auth, 10), (Focus::Visibility, 5)],
+        "C07" => &[(Focus::Auth, 80), (Focus::Events, 10), (Focus::Crash, 10)],
+        "C08" => &[(Focus::Visibility, 85), (Focus::Crash, 5), (Focus::Packing, 5), (Focus::Events, 5)],
+        _ => return own,
+    };
+    let w: Vec<u32> = table.iter().map(|x| x.1).collect();
+    table[r.weighted(&w)].0
+}
+
 pub fn generate(seed: u64, prop: &str) -> Trace {
-    Gen::new(seed, focus_of(prop)).generate()
+    Gen::new(seed, mixed_focus(seed, prop)).generate()
 }
